@@ -3,6 +3,8 @@ From GV Require Import Common.Outcome LR.CloseMirror LR.CloseSpec C02.Model C02.
 From GV Require Import C02.PagerSpec C02.PagerProofsPath C02.PagerProofsBridge C02.PagerProofsExists C02.PagerProofsMisc C02.PagerProofsMain.
 From GV Require Import C02.Lr1Model C02.Lr1Spec C02.Lr1Proofs.
 From GV Require Import Base.AnalysesProofs C02.LoopModel C02.LoopSpec C02.LoopProofs C02.LoopEdgeProofs C02.LoopPanicProofs.
+From GV Require Import C02.InducedModel C02.InducedSpec C02.LoopFactsProofs C02.InducedSProofs C02.InducedCProofs C02.InducedEProofs C02.InducedMainProofs.
+From GV Require Import C02.LoopGcProofs C02.LoopTermProofs C02.LoopTotalProofs.
 
 Theorem C02_validated_automata_agree : validated_automata_agree_stmt.
 Proof. exact validated_automata_agree. Qed.
@@ -155,3 +157,55 @@ Print Assumptions C02_pager_mirror_edges_sound.
 Theorem C02_pager_mirror_never_panics : pager_mirror_never_panics_stmt.
 Proof. exact pager_mirror_never_panics. Qed.
 Print Assumptions C02_pager_mirror_never_panics.
+
+(* the automaton induced by a graph of the mirror (closed states, edges, the table read off them) is VALIDATED; for an LR(1) grammar it is also conflict-free, so it agrees on every input with any validated automaton of the grammar, e.g. the canonical LR(1) one *)
+
+Theorem C02_pager_mirror_graph_facts : pager_mirror_graph_facts_stmt.
+Proof. exact pager_mirror_graph_facts. Qed.
+Print Assumptions C02_pager_mirror_graph_facts.
+
+Theorem C02_pager_reachable_start_la : pager_reachable_start_la_stmt.
+Proof. exact pager_reachable_start_la. Qed.
+Print Assumptions C02_pager_reachable_start_la.
+
+Theorem C02_induced_validS : induced_validS_stmt.
+Proof. exact induced_validS. Qed.
+Print Assumptions C02_induced_validS.
+
+Theorem C02_induced_validC : induced_validC_stmt.
+Proof. exact induced_validC. Qed.
+Print Assumptions C02_induced_validC.
+
+Theorem C02_induced_validE : induced_validE_stmt.
+Proof. exact induced_validE. Qed.
+Print Assumptions C02_induced_validE.
+
+Theorem C02_induced_single_candidate : induced_single_candidate_stmt.
+Proof. exact induced_single_candidate. Qed.
+Print Assumptions C02_induced_single_candidate.
+
+Theorem C02_pager_mirror_validated : pager_mirror_validated_stmt.
+Proof. exact pager_mirror_validated. Qed.
+Print Assumptions C02_pager_mirror_validated.
+
+Theorem C02_pager_parser_agrees : pager_parser_agrees_stmt.
+Proof. exact pager_parser_agrees. Qed.
+Print Assumptions C02_pager_parser_agrees.
+
+Theorem C02_pager_parser_agrees_certified : pager_parser_agrees_certified_stmt.
+Proof. exact pager_parser_agrees_certified. Qed.
+Print Assumptions C02_pager_parser_agrees_certified.
+
+(* termination: for every oracle of hash orders the mirrored loop stops; with never_panics the construction is total up to the deliberate StorageT size checks *)
+
+Theorem C02_sub_kernel_weakly_compatible : sub_kernel_weakly_compatible_stmt.
+Proof. exact sub_kernel_weakly_compatible. Qed.
+Print Assumptions C02_sub_kernel_weakly_compatible.
+
+Theorem C02_pager_mirror_terminates : pager_mirror_terminates_stmt.
+Proof. exact pager_mirror_terminates. Qed.
+Print Assumptions C02_pager_mirror_terminates.
+
+Theorem C02_pager_mirror_total : pager_mirror_total_stmt.
+Proof. exact pager_mirror_total. Qed.
+Print Assumptions C02_pager_mirror_total.
